@@ -27,6 +27,7 @@ def run(ctx):
     header_derivation(ctx, P)
     mutators(ctx, P)
     header_freshness(ctx, P)
+    version_conditional_fields(ctx, P)
     stored_length_encoding(ctx, P)
     s2k_usage_tables(ctx, P)
     tag_tables(ctx, P)
@@ -235,6 +236,32 @@ def header_freshness(ctx, P):
             ctx.violation(key, 'R-pair', desc, function=p, site=site(b, bad[1][0]), witness=fmt_path(b, bad[1]),
                           missing='the stored packet_header keeps the old length after %s changed: packet_header() announces a length that is not what is written, and the object no longer equals its re-parsed copy' % bad[0].split('.')[-1])
     ctx.floor(P + ':S05-9:floor:mutators', '&mut self methods of packet types that change a variable-width field', n, 6)
+
+
+def version_conditional_fields(ctx, P):
+    """RFC 9580 §5.5.3: the one-octet length of the S2K specifier (and the cumulative length octet) exist in v6 secret key packets
+    only.  The parser reads them under `key_ver == V6`; the serialiser must write them under the same condition in every arm, or the
+    library cannot read back what it wrote."""
+    wb = ctx.body('types::params::encrypted_secret::EncryptedSecretParams::to_writer')
+    pb = ctx.body('types::params::secret::parse_secret_fields')
+    if wb is None or pb is None:
+        return
+    V6 = r'agg:types::packet::KeyVersion::V6$'
+    wsites = [i for i, t in wb.calls(r'StringToKey::len$')]
+    bad = [i for i in wsites if not [g for g, _ in guard_switches(wb, [i], [r'param:3$', V6])]]
+    ctx.check(P + ':S05-10:s2k-length-octet:writer', 'R-sib', 'EncryptedSecretParams::to_writer writes the S2K specifier length octet only under `version == V6` (both in the AEAD and the CFB arm)',
+              len(wsites) >= 2 and not bad, function=wb.path, site=site(wb, bad[0]) if bad else None)
+    psites = [i for i, t in pb.calls(r'StringToKey::len$')]
+    # the parser compares s2k.len() with the octet it read only if it read one: that read is controlled by key_ver == V6
+    pg = [i for i, t in pb.switches() if has_origin(pb.switch_origins(i), r'param:1$') and has_origin(pb.switch_origins(i), V6)]
+    ctx.check(P + ':S05-10:s2k-length-octet:parser', 'R-sib', 'parse_secret_fields reads the cumulative length octet and the two S2K specifier length octets under `key_ver == V6`',
+              len(psites) >= 2 and len(pg) >= 3, function=pb.path, count=len(pg))
+    lb = ctx.body('types::params::encrypted_secret::EncryptedSecretParams::write_len')
+    if lb is not None:
+        lg = [i for i, t in lb.switches() if has_origin(lb.switch_origins(i), r'param:2$') and has_origin(lb.switch_origins(i), V6)]
+        wg = [i for i, t in wb.switches() if has_origin(wb.switch_origins(i), r'param:3$') and has_origin(wb.switch_origins(i), V6)]
+        ctx.check(P + ':S05-10:version-tests-agree', 'R-sib', 'serialiser, length query and parser test the key version at the same three places (cumulative length, AEAD arm, CFB arm)',
+                  len(lg) == len(wg) == len(pg) == 3, function=lb.path, table=dict(write_len=len(lg), to_writer=len(wg), parser=len(pg)))
 
 
 def stored_length_encoding(ctx, P):
